@@ -3,6 +3,7 @@ import Mathlib.Analysis.SpecialFunctions.Pow.Real
 import Mathlib.Analysis.SpecialFunctions.Log.Base
 import Mathlib.Analysis.SpecialFunctions.Gamma.Basic
 import Mathlib.Analysis.SpecialFunctions.Trigonometric.Basic
+import Mathlib.NumberTheory.LSeries.RiemannZeta
 /-! The real-number interpretation of the transcendental operations of the generated formulas. -/
 namespace Qats
 
@@ -17,5 +18,6 @@ noncomputable instance : TranscOps ℝ where
   abs := fun x => |x|
   rpow := fun x y => x ^ y
   pi := Real.pi
+  zetac := fun x => (riemannZeta (x : ℂ)).re - 1
 
 end Qats
